@@ -18,16 +18,18 @@ def clsid_bytes(ptype):
 
 
 class Pool:
-    def __init__(self, rng, cp, long_refs, holes=0.0, dups=0.0, overcount=0.0):
+    def __init__(self, rng, cp, long_refs, holes=0.0, dups=0.0, overcount=0.0, stale=0.0):
         self.rng, self.cp, self.long = rng, cp, long_refs
         self.entries = []           # [text, refcount]
-        self.holes, self.dups, self.overcount = holes, dups, overcount
+        self.holes, self.dups, self.overcount, self.stale = holes, dups, overcount, stale
 
     def ref(self, text):
         if text is None or text == "":
             return 0
         if self.rng.random() < self.holes:
             self.entries.append(["", 0])                     # an unused entry
+        if self.rng.random() < self.stale:
+            self.entries.append([self.rng.choice(["stale", "x", "leftover text"]), 0])   # unused, but its text was never cleared
         if self.rng.random() >= self.dups:
             for i, e in enumerate(self.entries):
                 if e[0] == text and e[1] > 0 and e[1] < 60000:
@@ -127,10 +129,10 @@ def encode_summary(rng, props, cp, layout="plain"):
     return struct.pack("<HHHH", 0xFFFE, version, 10, 2) + b"\0" * 16 + struct.pack("<I", 1) + FMTID + struct.pack("<I", 48) + sect
 
 
-def encode_db(rng, ptype, cp, tables, summary, streams, long_refs=False, holes=0.0, dups=0.0, overcount=0.0,
+def encode_db(rng, ptype, cp, tables, summary, streams, long_refs=False, holes=0.0, dups=0.0, overcount=0.0, stale=0.0,
               validation=True, shuffle_catalog=False, odd_int_sizes=False, layout="plain"):
     """tables: {name: (cols, rows)} (rows need not be sorted) -> (clsid, [(entry name, bytes)], expected)"""
-    pool = Pool(rng, cp, long_refs, holes, dups, overcount)
+    pool = Pool(rng, cp, long_refs, holes, dups, overcount, stale)
     tnames = sorted(tables)
     cat_tables = list(tnames) + (["_Validation"] if validation else [])
     schemas = dict((n, tables[n][0]) for n in tnames)
